@@ -44,6 +44,12 @@ def _seed(name):
         'C1CCC1': ([(1, 'C'), (2, 'C'), (3, 'C'), (4, 'C')], [(1, 2, 1), (2, 3, 1), (3, 4, 1), (1, 4, 1)]),
         'CN~Cu': ([(1, 'C'), (2, 'N'), (3, 'Cu')], [(1, 2, 1), (2, 3, 8)]),
     }
+    if name.startswith('smi:'):
+        # medium seeds: read once, then rebuilt through the public constructor path from the raw snapshot (no reader-specific state survives)
+        from chython import smiles
+        m0 = smiles(name[4:])
+        m, _ = rebuild(raw(m0))
+        return m
     atoms, bonds = S[name]
     m = mk.build(atoms, bonds)
     if name == 'CC(N)O@':
@@ -55,6 +61,10 @@ def _seed(name):
 
 SEEDS_QUICK = ['C', 'CC', 'C=C', 'CCO', 'C1CC1', 'NaCl', 'CC(N)O@', 'CC=CC/', 'CN~Cu']
 SEEDS_THOROUGH = SEEDS_QUICK + ['C1CC1C', 'C1CCC1']
+# medium seeds (5-10 atoms, Kekule forms only: hydrogens of aromatic atoms are not derivable from atoms and bonds): rings with ambiguous bases, stereo of every kind, zwitterion, metal
+SEEDS_MEDIUM = ['smi:C1=CC=CC=C1', 'smi:C[C@H](N)C(=O)O', 'smi:C/C=C/C=C\\C', 'smi:C1CC2CCC1C2', 'smi:C[N+](C)(C)CC([O-])=O', 'smi:C1CCC2(CC1)OCCO2', 'smi:O=C1C=CC(=O)C=C1',
+                'smi:C[C@H]1CC[C@@H](O)CC1', 'smi:CC=[C@]=CC', 'smi:C#CC[N+]#[C-]', 'smi:C[Mg]Br', 'smi:C1CC1C1CC1', 'smi:N1C=CC=C1', 'smi:C[C@@]12CCC[C@H]1C2', 'smi:OO.[Na+].[Cl-]']
+SEEDS_MEDIUM_QUICK = SEEDS_MEDIUM[:8]
 
 
 # ----------------------------------------------------------------------------- raw snapshot, rebuild, readers
@@ -682,13 +692,26 @@ def stage_dev2(pmap, tier, seed):
     return bfs(pmap, ['CC', 'CCO', 'C1CC1', 'CC(N)O@', 'CN~Cu'], 3, 2, 4, 1, 'dev2', patterns=['ALL', 'NONE', 'ONE:str', 'ONE:sssr', 'ONE:atoms_order', 'ONE:connected_components'])
 
 
+def stage_medium1(pmap, tier, seed):
+    I4DEPTH[0] = 0
+    return bfs(pmap, SEEDS_MEDIUM if tier == 'thorough' else SEEDS_MEDIUM_QUICK, 1, 1, 99, 3, 'medium dev1', patterns=PATTERNS if tier == 'thorough' else PATTERNS_QUICK)
+
+
+def stage_medium2(pmap, tier, seed):
+    I4DEPTH[0] = 0
+    return bfs(pmap, SEEDS_MEDIUM, 2, 0, 99, 3, 'medium dev0')
+
+
 def plan(tier, seed):
     if tier == 'thorough':
         return [Stage('BFS default reads depth 4', stage_default, None, 'all histories <=4 events, <=4 atoms, <=1 decorated atom, all caches read after every event'),
                 Stage('BFS <=1 read deviation depth 3', stage_dev1, None, 'all histories <=3 events, 11 seeds, with <=1 non-default read pattern (none/exactly-one-of-9)'),
-                Stage('BFS <=2 read deviations depth 3', stage_dev2, None, 'all histories <=3 events on 5 seeds with <=2 non-default read patterns (none / one of str, sssr, atoms_order, components)')]
+                Stage('BFS <=2 read deviations depth 3', stage_dev2, None, 'all histories <=3 events on 5 seeds with <=2 non-default read patterns (none / one of str, sssr, atoms_order, components)'),
+                Stage('medium seeds: every event, <=1 read deviation', stage_medium1, None, 'every enabled event at every position of 15 molecules of 5-10 atoms (rings, stereo, zwitterion, metal) x every read pattern'),
+                Stage('medium seeds: every pair of events', stage_medium2, None, 'all histories of 2 events on the 15 medium seeds, all caches read after every event')]
     return [Stage('BFS default reads depth 3', stage_default, None, 'all histories <=3 events, <=4 atoms, <=1 decorated atom, all caches read after every event'),
-            Stage('BFS <=1 read deviation depth 2', stage_dev1, None, 'all histories <=2 events, <=4 atoms, with <=1 non-default read pattern (none/exactly-one-of-9)')]
+            Stage('BFS <=1 read deviation depth 2', stage_dev1, None, 'all histories <=2 events, <=4 atoms, with <=1 non-default read pattern (none/exactly-one-of-9)'),
+            Stage('medium seeds: every event, <=1 read deviation', stage_medium1, None, 'every enabled event at every position of 8 molecules of 6-10 atoms (rings, stereo, zwitterion) x read patterns all / none / exactly one of 9')]
 
 
 def replay(rec):
